@@ -204,6 +204,9 @@ class HTTPStream:
                 message["type"] == "http.response.trailers"
                 and self.scope["http_version"] in TRAILERS_VERSIONS
                 and self.state == ASGIHTTPState.REQUEST
+                # A response of only trailers needs a client that takes
+                # them, otherwise there is no response to end
+                and (b"te", b"trailers") in self.scope["headers"]
             ):
                 for name, value in self.scope["headers"]:
                     if name == b"te" and value == b"trailers":
